@@ -357,6 +357,18 @@ def decode(case, out_vars, dims, tensor, params_rows):
             if txt is None:
                 if cands and cands[0][0] == "leaf":
                     kind, lf, node = cands[0]
+                    # made for another parameter row? then the leaf can still be identified
+                    for kind2, lf2, node2 in cands:
+                        if kind2 != "leaf":
+                            continue
+                        for prow in params_rows:
+                            env2 = dict(env, **dict(zip(pvars, prow)))
+                            if cell_verdict(node2, vals[v], env2)[0]:
+                                kind, lf, node = kind2, lf2, node2
+                                break
+                        else:
+                            continue
+                        break
                     _, moves, rel = cell_verdict(node, vals[v], env)
                     txt = cell_text(v, lf, node, False, moves, None)
                 else:
@@ -774,7 +786,7 @@ def gen_cases(ctx):
         if c is None or total_rows(c) > 400:
             continue
         cases.append(c)
-    return cases
+    return cases + finding_probes(rng)
 
 
 # ------------------------------------------------------------------------------------------
@@ -974,8 +986,48 @@ def shrink(case, budget=60):
     return best, best_fails
 
 
+def strip_static(s):
+    while s["k"] == "T":
+        s = s["s"]
+    return s
+
+
+def append_of_sums_layout(case):
+    """matcher of the known finding: an append whose operands are sums with different splits, >= 2 parameter rows"""
+    def walk(s):
+        if s["k"] in ("leaf", "data"):
+            return False
+        if s["k"] == "T":
+            return walk(s["s"])
+        if s["k"] == "&":
+            a, b = strip_static(s["a"]), strip_static(s["b"])
+            if a["k"] == "+" and b["k"] == "+" and (slen(a["a"]), slen(a["b"])) != (slen(b["a"]), slen(b["b"])):
+                return True
+        return walk(s["a"]) or walk(s["b"])
+    return case["k"] >= 2 and walk(case["s"])
+
+
+def finding_probes(rng):
+    """fixed-shape inputs of the known finding (so that every run says whether it still reproduces)"""
+    out = []
+    for (n1, n2, m1, m2) in ((1, 2, 2, 1), (3, 1, 2, 2)):
+        g = Gen(rng)
+        a1 = simple_leaf(g, "x", "u", ["t"], n1)
+        a2 = json.loads(json.dumps(a1)); a2["n"] = n2; shift_ids(a2["d"], g, 3.0)
+        b1 = simple_leaf(g, "u", "u", ["t"], m1)
+        b2 = json.loads(json.dumps(b1)); b2["n"] = m2; shift_ids(b2["d"], g, 3.0)
+        k = rng.choice([2, 3])
+        vals = rng.sample(range(1, 9), k)
+        out.append(dict(kind="sample", k=k, pvars=["t"], pvals=[[float(v)] for v in vals],
+                        s=dict(k="&", a=dict(k="+", a=a1, b=a2), b=dict(k="+", a=b1, b=b2)), tseed=rng.randint(0, 10 ** 6)))
+    return out
+
+
 def judge(rep, case, res, reply):
     fails = oracles(case, res)
+    if fails and append_of_sums_layout(case) and all("was not made for" in f for f in fails):
+        rep.fail(fails[0], dict(case=case, text=describe(case)), finding="append_of_sums_layout")
+        fails = []
     if fails and rep.hist.get("shrunk", 0) < 3:
         rep.count("shrunk")
         small, sf = shrink(case)
@@ -1018,7 +1070,7 @@ def run(ctx, rep, cases=None):
     for c in cases:
         r = run_impl(c)
         results.append(r)
-        if c.get("kind") != "malformed" and oracles(c, r):
+        if c.get("kind") != "malformed" and not append_of_sums_layout(c) and oracles(c, r):
             failing += 1
             if failing >= MAX_FAILING_CASES:
                 rep.notes.append(f"stopped after {len(results)} of {len(cases)} cases: {failing} cases violate the property")
